@@ -41,7 +41,9 @@ C10Checks ==
   \cup { Sub("C10:canonical-accepted:" \o f, G(CanonIntField(f)), FieldImpl(f)) : f \in { f \in FieldNames : FieldTable[f].typ = "int" } }
   \cup { Sub("C10:canonical-accepted:player2-bass", G(CanonP2(wBass)), FieldImpl("f_player2")),
          Sub("C10:canonical-accepted:player2-rhythm", G(CanonP2(wRhythm)), FieldImpl("f_player2")) }
-  \cup { Sub("C10:within-liberal:" \o f, FieldImpl(f), G(IF FieldTable[f].typ = "int" THEN LibIntField(f) ELSE LibField(f))) : f \in FieldNames }
+  \* (the most a field's recogniser may claim is a line that starts with the field's OWN name and " = ": C10 does not say
+  \*  which values of a numeric field must be refused, only that no field's line may influence another field)
+  \cup { Sub("C10:within-liberal:" \o f, FieldImpl(f), G(LibField(f))) : f \in FieldNames }
   \cup { Disj("C10:no-line-claimed-by-two-fields:" \o p[1] \o "/" \o p[2], FieldImpl(p[1]), FieldImpl(p[2])) : p \in Pairs(FieldNames) }
 
 C06Checks == { Sub("C06:canonical-header-accepted", G(CanonHeader), Impl("header")), Sub("C06:header-within-liberal", Impl("header"), G(LibHeader)) }
